@@ -592,6 +592,7 @@ func TrackerWF(t *SessionTracker) bool {
 //@   props C06:rec-decreases,pre@call
 //@   params ()
 //@   captures (depth int)
+//@   checked-requires
 //@   requires depth <= maxSearchKeyDepth
 
 var _ time.Time
